@@ -456,7 +456,12 @@ Section WithUsers.
     | _ => [funquote f]
     end.
 
+  (* Expand in Quote mode ("as if within double-quotes"): a word of $@ only, without positional parameters, is no field *)
+  Definition quoted_at_only (e : env) (word : list wpart) (mode : N) : bool :=
+    mbit mode mQuote && negb (mbit mode mLiteral || mbit mode mPattern) && Nat.leb (length (args e)) 1 && only_at word.
+
   Definition expand_top (e : env) (word : list wpart) (mode : N) : xres (env * list bytes) :=
+    if quoted_at_only e word mode then Ok (e, []) else
     match expand (4 * S (word_size word)) e word mode with
     | Err x => Err x | Panic p => Panic p | OutOfFuel => OutOfFuel
     | Ok (e1, fields) =>
